@@ -206,6 +206,10 @@ def run_lines(binary, lines, timeout=1500, shards=16, env=None):
     """run a line-protocol binary over case lines, sharded; returns dict id -> output text"""
     if not lines:
         return {}
+    ids = [l.split(None, 2)[1] for l in lines if len(l.split(None, 2)) > 1]
+    if len(set(ids)) != len(ids):
+        dup = sorted({i for i in ids if ids.count(i) > 1})[:5]
+        raise ValueError(f"case ids must be unique within one run (results are keyed by id): {dup}")
     n = min(shards, max(1, len(lines) // 8))
     chunks = [lines[i::n] for i in range(n)]
     e = dict(os.environ)
